@@ -318,7 +318,11 @@ long long c_delineate_boundary(long long nrows, long long ncols,
                 break;
         }
 
-        /* Iterate if we have a neighbour */
+        /* Iterate if we have a neighbour
+         * (none was found for a single boundary cell: knext is still -1) */
+        if(knext<0)
+            break;
+
         buffer[knext] = -1;
         idxcell = next;
     }
